@@ -1,0 +1,9 @@
+//go:build verif
+
+package difflib
+
+// VerifOpCodes exposes the full (ungrouped) edit script of the matcher to the
+// verification harness. Guarded by the `verif` build tag; not part of the library.
+func (m *sequenceMatcher) VerifOpCodes() []OpCode {
+	return m.getOpCodes()
+}
